@@ -5,7 +5,7 @@ import json, os
 CLAIMED = {
     "C08": dict(engine="memsim", level="exploration", ref="3.1",
         technique="deterministic simulation: seeded write/read/maintenance-op histories on MemoryMap vs. a byte-level reference model, ddmin-minimised replayable traces",
-        text="Seeded histories of raw/constant/symbolic writes (both endiannesses, overlapping in every way, concrete and symbolic zones) interleaved with reads and with restruct/copy/shift/merge at arbitrary instants are checked byte for byte against a last-write-wins byte map through an independent evaluator. Sampling of histories, not proof.",
+        text="Seeded histories of raw/constant/symbolic writes (both endiannesses, overlapping in every way, concrete and symbolic zones; earlier values stored again whole or as the slice already lying there, with the same or the other endianness) interleaved with reads and with restruct/copy/shift/merge at arbitrary instants are checked byte for byte against a last-write-wins byte map through an independent evaluator. Sampling of histories, not proof.",
         note="trusts the 60-line independent evaluator and the byte model; no I/O fault seam exists in this code, the adversary is the history and the placement of maintenance operations"),
     "C09": dict(engine="aliassim", level="exploration", ref="3.2",
         technique="deterministic simulation: store/load programs through symbolic pointers, late (adversarial) pointer resolution, mods-replay interpreter vs. bytearray execution",
@@ -13,11 +13,11 @@ CLAIMED = {
         note="trusts the bytearray model and the independent mods interpreter; carve-outs over-approximate the known defects' trigger regions and cost coverage there"),
     "C10": dict(engine="heapsim_isa", level="exploration", ref="3.3",
         technique="deterministic simulation: seeded interleaving of analysis clients on one process image (one long history per forked world), first-occurrence (temporal) oracle on every observation + sampled pristine forked reference worlds, guided polluter x victim layer confirmed in pristine forks, heap write barrier for attribution and undo of listed sites",
-        text="Analysis clients (decode / build map / evaluate / re-evaluate / rebuild / compose / continue the analysis on a copy derived from a stored map / pickle / aborted builds) of several ISAs are interleaved on one process image by a seeded scheduler; every constant observation must equal the first observation of the same (ISA, block, state) in that process - on the old map and on a map rebuilt after the intervening history - and sampled first observations must equal a pristine forked process that executes only the dependency chain. A guided layer screens every spec for writes to pre-existing nodes and runs polluter x victim histories, each divergence confirmed in a pristine fork.",
+        text="Analysis clients (decode / build map / evaluate / re-evaluate / rebuild / compose / continue the analysis on a copy derived from a stored map / pickle / aborted builds) of several ISAs are interleaved on one process image by a seeded scheduler; every constant observation must equal the first observation of the same (ISA, block, state) in that process - on the old map and on a map rebuilt after the intervening history - and sampled first observations must equal a pristine forked process that executes only the dependency chain. Every client ISA has a battery (its specs on two operand templates) that is built and observed at the start of the world, re-swept later in shuffled order and probed entry by entry right after other operations. A guided layer screens every spec (six operand templates, also executed in a perturbed context and evaluated) for writes to pre-existing nodes and runs polluter x victim histories (same-family victims first), each divergence confirmed in a pristine fork.",
         note="compares constants only (loads stay symbolic); trusts fork() to give the post-import state; 16 listed write sites (signedness flag / armv7 decode mode on process-global objects) are undone at step end - a carve-out that masks changes at those sites only - and each is replayed without undo as a KNOWN-FINDING witness"),
     "C11": dict(engine="decsim", level="exploration", ref="3.4",
         technique="deterministic simulation with fault injection: seeded decode-call histories with truncated fetch windows, rejections and injected setup-function faults vs. a memoryless reference decoder, the first occurrence of the same call in the process, and pristine forked processes (single calls, and the world's distinct calls replayed in another order); decoder-tree-guided inputs; exhaustive 2-call histories over a per-ISA pool",
-        text="Histories of decode calls (valid, prefixed, truncated at every length, undecodable, natural and injected setup failures incl. MemoryError, ARM/Thumb switches) on the shared disassembler object of every importable ISA; each call's outcome must equal that of a never-called copy of the decoder and that of the first occurrence of the same call in this process (inputs of long ago are re-issued), sampled calls must equal a pristine forked process, up to 6000 distinct calls per world are replayed by one pristine process in hash order and must give the same outcomes, returned bytes must be a prefix of the call's input. Inputs include words accepted by two specs of one leaf of the decoder tree. The pair layer enumerates all ordered pairs of a per-ISA pool as 2-call histories.",
+        text="Histories of decode calls (valid, prefixed, truncated at every length, undecodable, natural and injected setup failures incl. MemoryError, decode-mode switches: ARM / Thumb / IT block / big-endian fetch, x86 32/16, x64 64/32/16) on the shared disassembler object of every importable ISA; each call's outcome must equal that of a never-called copy of the decoder and that of the first occurrence of the same call in this process (inputs of long ago are re-issued), sampled calls must equal a pristine forked process, up to 6000 distinct calls per world are replayed by one pristine process in hash order and must give the same outcomes, returned bytes must be a prefix of the call's input. Inputs include words accepted by two specs of one leaf of the decoder tree. The pair layer enumerates all ordered pairs of a per-ISA pool as 2-call histories.",
         note="reference decoder is a shallow copy of the shared decoder taken before its first call; fault trampolines wrap ispec.hook; sampling except for the stated pair pool"),
     "C13": dict(engine="heapsim_alg", level="exploration", ref="3.5",
         technique="deterministic simulation: shared-operand operation histories by several holders with injected aborts, published-value stability oracle, heap write barrier, pickle round trips",
@@ -25,11 +25,11 @@ CLAIMED = {
         note="denotation is measured with an independent walker plus amoco's own eval on constants; listed known write sites are undone at step end (carve-out), witnesses replay without undo"),
     "C18": dict(engine="cfgsim", level="exploration", ref="3.6",
         technique="deterministic simulation: seeded arrival orders and subsets of blocks into cfg.graph, partition/exactly-once/split-edge invariants after every insertion; stream invariants of linear sweep and block slicing",
-        text="For code regions of every ISA with a usable loader, linear sweep / block construction invariants are checked and then seeded subsets of blocks are inserted into cfg.graph - a separate graph or the sweep object's own - in seeded arrival orders (with edges, re-insertions and re-sweeps); after every insertion the support must be pairwise disjoint, contain every inserted instruction exactly once and carry a fall-through edge wherever a node was split.",
+        text="For code regions of every ISA with a usable loader, linear sweep / block construction invariants are checked and then seeded subsets of blocks are inserted into cfg.graph - a separate graph or the sweep object's own - in seeded arrival orders (with edges, re-insertions, re-sweeps and client-side node.cut followed by insertion of the cut-away block); after every insertion the support must be pairwise disjoint, contain every inserted instruction exactly once and carry a fall-through edge wherever a node was split.",
         note="reference block boundaries come from a 15-line independent computation over the swept instruction list; arrival order is the only adversary (no I/O seam)"),
     "C20": dict(engine="filesim", level="fault_enumeration", ref="3.7",
         technique="deterministic simulation with storage fault injection: SimFS seam under read_program, enumerated truncations and header-field boundary overwrites plus seeded corruption sequences (incl. grouped fields, checksum-valid HEX/SREC records), deterministic interpreter-event budget (sys.monitoring) and allocation bounds (tracemalloc peak, refused-allocation monitor)",
-        text="read_program is run over an in-memory file system whose single file is a fault sequence applied to a sample, a synthesised image or random data: every prefix truncation and every located header/table field x boundary value is enumerated (thorough), flips/zeroed/duplicated/dropped blocks are seeded. It must return a recognised object or the raw fallback within a deterministic Python-call budget and allocation budget; any escaping exception is a violation.",
+        text="read_program is run over an in-memory file system whose single file is a fault sequence applied to a sample, a synthesised image or random data: every prefix truncation and every located header/table field x boundary value is enumerated (thorough), flips/zeroed/duplicated/dropped blocks are seeded; every 20th case is a canary (a valid sample identified again after the faulty history) and separate worlds identify generated valid HEX/SREC images of many sizes. It must return a recognised object or the raw fallback within a deterministic Python-call budget and allocation budget; any escaping exception is a violation, and a valid file must be claimed by its own format whatever was parsed before.",
         note="budgets (2e7 interpreter events; 512 MiB + 64 x size traced peak; address-space allowance current + 768 MiB) are the deciding bounds, the wall-clock watchdog only protects the harness (a world that stalls twice at the same case below its budget is reported as class stall); short reads/EIO are not injected because the property speaks of content only; one open finding (PE VirtualSize padding, 2 signature keys)"),
 }
 
